@@ -48,6 +48,10 @@ CLAIMED = {
             "Exploration with an exhaustive calendar grid (8 years x every month boundary x 2 times x 8+ offsets x 13 fraction shapes x 5 precisions, ~50 000 cases) plus random timestamps, an enumerated list of impossible literals/binary tuples, and 10-30 digit fractions in both formats.",
             "Local year 1..9999. Ties within 0.001 ns of .5 are accepted either way in the sub-nanosecond check (the text path rounds through float64).",
             "DESIGN.md section 5, C15"),
+    "C07": (PBT + "; differential oracle: an edited document is a case only if the independent strict reference decoder rejects it for a reason the property lists; then validity (Err non-nil, permanent) is checked on ion-go; exhaustive application of an edit catalogue at every position of ~60 base documents",
+            "Exploration with an exhaustive sub-grid: ~60 small base documents (every type, both formats) x the whole edit catalogue (truncation / deletion / duplication at every offset, every byte replaced by a hostile alphabet incl. all L nibbles and calendar values, insertion of 27 malformed tokens at every text position) = ~10^5 reference-rejected documents per quick run, plus 80 000 random edits of larger generated documents; each must end a full traversal with Err() != nil, then 5 more Next() calls return false with the same Err().",
+            "Not used as witnesses (counted as discarded): edits that leave the document valid, rejections the reference marks undecided (DESIGN 9.4), symbol-ID / import errors (C10), unsorted sorted-structs, malformed content *inside* a top-level symbol-table struct other than truncation (a reader may skip ignored fields unvalidated), binary offsets beyond 23:59, local year 0/10000. Trusts the reference decoders.",
+            "DESIGN.md section 5, C07; section 9"),
     "C19": ("fault enumeration + property-based testing with pgregory.net/rapid: every single split point / every read-fault offset / every failing Write-call index enumerated for a fixed set of documents and call sequences, random plans elsewhere; metamorphic oracle (any delivery plan vs whole buffer) and validity oracles (fault reported, sticky, accepted bytes a prefix)",
             "Fault enumeration: for ~100 fixed documents (hand-written lookahead-hungry texts/binaries + deterministic generator examples) every split point x {EOF alone, EOF with data} x {full, container-skipping traversal}, and a read failure at every byte offset x {alone, with data} x {persistent, one-off} x {whole, byte-at-a-time}; for 40 fixed call sequences x 4 writer configurations a write failure at every Write-call index x {nothing, half accepted} x {persistent, one-off}; plus ~17 000 random (document, plan) / (sequence, fault) cases per quick run including documents straddling bufio's 4096-byte buffer and corrupted documents.",
             "Faults are injected in the io.Reader / io.Writer the harness hands to ion-go (no hooks). A read plan returns at most one (0,nil) in a row. One-off (transient) faults are part of the fault model: the reader/writer must still report them. Trusts the harness's plan reader / fault writer, rapid, Go.",
